@@ -61,13 +61,23 @@ class TLCResult:
         self.errors = [l for l in out.splitlines() if re.search(r"\bError\b|rror:", l)]
 
     def trace(self):
-        """counterexample states printed by TLC, as list of (action, state dict)"""
-        res = []
-        for m in re.finditer(r"State (\d+): <([^>]*)>\n((?:(?!\nState |\n\d+ states generated|\nError:|\n\n).|\n(?=/\\))*)", self.out):
-            try:
-                res.append((m.group(2).split(" ")[0], tlaval.parse_state(m.group(3))))
-            except tlaval.ParseError:
-                res.append((m.group(2).split(" ")[0], {"_raw": m.group(3)}))
+        """counterexample behaviour printed by TLC, as list of (action, state dict)"""
+        res, action, buf = [], None, None
+        for line in self.out.splitlines():
+            m = re.match(r"^State \d+: <(\w+)", line)
+            if m:
+                if buf:
+                    res.append((action, tlaval.parse_state("\n".join(buf))))
+                action, buf = m.group(1), []
+                continue
+            if buf is not None:
+                if line.startswith("/\\") or (buf and line.startswith(" ")) or (buf and line.strip() and not re.match(r"^(Error|\d+ states|The |Finished|Back to state)", line)):
+                    buf.append(line)
+                elif not line.strip() and buf:
+                    res.append((action, tlaval.parse_state("\n".join(buf))))
+                    buf = None
+        if buf:
+            res.append((action, tlaval.parse_state("\n".join(buf))))
         return res
 
     def coverage(self):
@@ -340,13 +350,51 @@ def read_sim_traces(directory, prefix="tr"):
         yield beh
 
 
-def simulate(workdir, module, cfg, num, depth, seed, out_sub="sim", timeout=1800, env=None):
-    """run tlc -simulate writing num behaviours of at most depth states; returns (TLCResult, list of behaviours)"""
+def simulate(workdir, module, cfg, num, depth, seed, out_sub="sim", timeout=1800, env=None, stall=8):
+    """run tlc -simulate writing num behaviours of at most depth states; returns (TLCResult, list of behaviours).
+    TLC 1.8's simulator sometimes stops producing behaviours without exiting: the run is ended when no new
+    behaviour file appeared for `stall` seconds (what was written so far is used; the count is reported)."""
     d = os.path.join(workdir, out_sub)
     shutil.rmtree(d, ignore_errors=True)
     os.makedirs(d)
-    r = run_tlc(workdir, module, cfg, workers=1, simulate="file=%s/tr,num=%d" % (d, num), depth=depth, seed=seed,
-                timeout=timeout, env=env)
-    behs = list(read_sim_traces(d))
+    meta = os.path.join(workdir, "meta_sim_%s_%d" % (module, os.getpid()))
+    cmd = ["java", "-XX:+UseParallelGC", "-cp", JAVA_CP, "tlc2.TLC", "-workers", "1", "-metadir", meta, "-noGenerateSpecTE",
+           "-config", cfg, "-simulate", "file=%s/tr,num=%d" % (d, num), "-depth", str(depth), "-seed", str(seed), module + ".tla"]
+    e = dict(os.environ)
+    e.pop("JAVA_TOOL_OPTIONS", None)
+    if env:
+        e.update(env)
+    t0 = time.time()
+    outf = os.path.join(workdir, module + ".sim.out")
+    with open(outf, "w") as fh:
+        pr = subprocess.Popen(cmd, cwd=workdir, env=e, stdout=fh, stderr=subprocess.STDOUT)
+        last_n, last_change = -1, time.time()
+        while pr.poll() is None:
+            time.sleep(0.5)
+            n = len(os.listdir(d))
+            if n != last_n:
+                last_n, last_change = n, time.time()
+            elif n > 0 and time.time() - last_change > stall:
+                pr.kill()
+                break
+            if time.time() - t0 > timeout:
+                pr.kill()
+                break
+        pr.wait()
+    shutil.rmtree(meta, ignore_errors=True)
+    out = open(outf).read()
+    r = TLCResult(out, pr.returncode, time.time() - t0)
+    if r.parse_failed:
+        raise MachineryError("TLC could not parse %s: %s" % (module, "\n".join(out.splitlines()[:30])))
+    behs = []
+    for beh in read_sim_traces(d):
+        if not beh:
+            continue
+        # drop stuttering tails
+        ded = [beh[0]]
+        for a, st in beh[1:]:
+            if st != ded[-1][1]:
+                ded.append((a, st))
+        behs.append(ded)
     shutil.rmtree(d, ignore_errors=True)
     return r, behs
